@@ -799,6 +799,130 @@ fn gen_partial(rng: &mut Rng, len: usize) -> Vec<Rq> {
     h
 }
 
+// ---------------------------------------------------------------- concurrent writers
+
+const CW_BULK: usize = 3000;
+const CW_HOT: usize = 16;
+
+fn gq(text: &str) -> RespValue {
+    RespValue::Array(vec![bulk("GRAPH.QUERY"), bulk("default"), bulk(text)])
+}
+
+/// wait until `pred` holds for the probe node in the store (the store lock is free again and
+/// the previous statement's effect is readable), never looking at that statement's reply
+async fn wait_effect(store: &Shared, probe: NodeId, key: &str, want: i64) {
+    loop {
+        if let Ok(g) = store.try_read() {
+            let ok = g.get_node(probe).and_then(|n| n.properties.get(key).cloned()).map(|v| matches!(v, PropertyValue::Integer(i) if i == want)).unwrap_or(false);
+            if ok {
+                return;
+            }
+        }
+        tokio::task::yield_now().await;
+    }
+}
+
+/// "Concurrent writers" family.  k ∈ {2, 3} connections share one `CommandHandler`, one store and
+/// one `PersistenceManager` (as the RESP server's connection tasks do) on a multi-thread runtime.
+/// Connection A sends a long statement that changes and returns thousands of nodes; connection B
+/// (and C) send short statements that change and return a few of the same nodes, each issued as
+/// soon as the previous statement's **effect** is readable in the store (not on its reply).
+/// Every statement returns every entity it changes, so whatever the interleaving the history is
+/// one of those of `C19_partial`: recovered = memory.  With the store guard held through the
+/// persistence loop the statements are serial; a handler that persists after releasing the guard
+/// lets A's older node images overwrite B's.  It is a schedule search: the schedule is repeated
+/// `reps` times per run (restart after each), the count is in the histogram.
+fn concurrent_writers(args: &Args, rep: &mut Report, known: &Known, exe: &Path, reps: usize) {
+    let rt = tokio::runtime::Builder::new_multi_thread().worker_threads(4).enable_all().build().unwrap();
+    let _guard = rt.enter();
+    let dir = tempfile::Builder::new().prefix("c19-cw-").tempdir_in(&args.work).expect("work dir");
+    let path = dir.path().to_str().unwrap().to_string();
+    let mut boot = recover_like_main(&path);
+    for r in 0..reps {
+        let k = 2 + (r % 2);
+        let round = r as i64 + 1;
+        let (graph, persistence, _) = boot;
+        let pm = persistence.expect("persistence manager");
+        let store: Shared = Arc::new(RwLock::new(graph));
+        let tenants = pm.tenants_arc();
+        let handler = Arc::new(CommandHandler::new_with_tenants(Some(Arc::clone(&pm)), Arc::clone(&tenants)));
+        let (all_acked, overlap) = rt.block_on(async {
+            let mut all_acked = true;
+            if r == 0 {
+                // the data set: every CREATE returns what it makes (durable)
+                let pad = "x".repeat(200);
+                for chunk in (0..CW_BULK).collect::<Vec<_>>().chunks(500) {
+                    let list = chunk.iter().map(|i| i.to_string()).collect::<Vec<_>>().join(", ");
+                    let q = format!("UNWIND [{}] AS i CREATE (n:Item {{i: i, pad: '{}'}}) RETURN n", list, pad);
+                    all_acked &= !matches!(handler.handle_command(&gq(&q), &store).await, RespValue::Error(_));
+                }
+                let list = (CW_BULK..CW_BULK + CW_HOT).map(|i| i.to_string()).collect::<Vec<_>>().join(", ");
+                let q = format!("UNWIND [{}] AS i CREATE (n:Item:Hot {{i: i, pad: '{}'}}) RETURN n", list, pad);
+                all_acked &= !matches!(handler.handle_command(&gq(&q), &store).await, RespValue::Error(_));
+            }
+            let probe: NodeId = store.read().await.get_nodes_by_label(&samyama::graph::Label::new("Hot"))[0].id;
+            let spawn = |text: String| {
+                let (h, st) = (Arc::clone(&handler), Arc::clone(&store));
+                tokio::spawn(async move { h.handle_command(&gq(&text), &st).await })
+            };
+            let task_a = spawn(format!("MATCH (n:Item) SET n.a = {} RETURN n", round));
+            wait_effect(&store, probe, "a", round).await;
+            let overlap = !task_a.is_finished();
+            let task_b = spawn(format!("MATCH (h:Hot) SET h.b = {} RETURN h", round));
+            let task_c = if k == 3 {
+                wait_effect(&store, probe, "b", round).await;
+                Some(spawn(format!("MATCH (h:Hot) SET h.c = {}, h:Touched RETURN h", round)))
+            } else {
+                None
+            };
+            all_acked &= !matches!(task_a.await.unwrap(), RespValue::Error(_));
+            all_acked &= !matches!(task_b.await.unwrap(), RespValue::Error(_));
+            if let Some(t) = task_c {
+                all_acked &= !matches!(t.await.unwrap(), RespValue::Error(_));
+            }
+            (all_acked, overlap)
+        });
+        let mem = rt.block_on(async { snap(&*store.read().await) });
+        drop(handler);
+        drop(store);
+        drop(tenants);
+        drop(pm);
+        boot = recover_like_main(&path);
+        let rec = snap(&boot.0);
+
+        rep.count("concurrent-writers:schedules-run");
+        rep.count(&format!("concurrent-writers:k={}", k));
+        if overlap {
+            rep.count("concurrent-writers:B-issued-before-A-replied");
+        }
+        if !all_acked {
+            rep.count("concurrent-writers:not-all-acknowledged");
+        }
+        let text = format!("concurrent-writers k={} bulk={} hot={} repetition={}", k, CW_BULK, CW_HOT, r + 1);
+        rep.case(&text, all_acked && mem.nodes.len() == CW_BULK + CW_HOT);
+        // S on the real observations, evaluated by the Lean driver: recovered = memory, entity by entity
+        let mut codes = Interner(HashMap::new());
+        let ids: BTreeSet<u64> = mem.nodes.keys().chain(rec.nodes.keys()).cloned().collect();
+        let cell = |c: &mut Interner, d: Option<&String>| d.map(|d| format!("n{}", c.code(d))).unwrap_or_else(|| "_".into());
+        let pairs: Vec<String> = ids.iter().map(|i| format!("{}={}", cell(&mut codes, mem.nodes.get(i)), cell(&mut codes, rec.nodes.get(i)))).collect();
+        let reply = driver::batch(exe, &[format!("spec {}", if pairs.is_empty() { "-".to_string() } else { pairs.join(",") })]).remove(0);
+        let differing: Vec<u64> = ids.iter().filter(|i| mem.nodes.get(i) != rec.nodes.get(i)).cloned().collect();
+        assert_eq!(reply != "ok", !differing.is_empty(), "specDurable and the harness disagree on {}: {}", text, reply);
+        if all_acked && !differing.is_empty() {
+            let shape = if differing.iter().any(|i| !rec.nodes.contains_key(i)) { "node-missing" } else { "node-stale" };
+            let sig = format!("unexplained:concurrent-writers:returned:{}", shape);
+            rep.count(&format!("loss:{}", sig));
+            let show: Vec<String> = differing.iter().take(4).map(|i| format!("# node{} memory={:?}\n#        recovered={:?}", i, mem.nodes.get(i).map(|d| d.replace(&"x".repeat(200), "x*200")), rec.nodes.get(i).map(|d| d.replace(&"x".repeat(200), "x*200")))).collect();
+            rep.spec_violation(
+                known,
+                &sig,
+                &format!("{} of {} nodes differ after the restart although every statement returned every node it changed ({})", differing.len(), ids.len(), text),
+                &format!("# {}\n# A: MATCH (n:Item) SET n.a = {r} RETURN n ; B (issued when A's effect is readable): MATCH (h:Hot) SET h.b = {r} RETURN h{}\n# spec: {}\n{}", text, if k == 3 { " ; C: MATCH (h:Hot) SET h.c = .., h:Touched RETURN h" } else { "" }, reply, show.join("\n"), r = round),
+            );
+        }
+    }
+}
+
 // ---------------------------------------------------------------- main
 
 fn parse_tab<T>(s: &str, f: impl Fn(&str) -> T) -> BTreeMap<u64, T> {
@@ -1060,6 +1184,9 @@ fn main() {
             rep.count("partial-history-not-durable");
         }
         }
+    }
+    if args.replay.is_none() {
+        concurrent_writers(&args, &mut rep, &known, &exe, if args.thorough() { 12 } else { 6 });
     }
     if let Some(body) = first_break {
         if rep.spec_violations.is_empty() {
